@@ -230,6 +230,16 @@ func c19Run(c *core.Ctx) {
 		}
 		run(f.adj, f.root)
 	}
+	// graphs whose node ids cross the storage-growth boundaries of the traversal marks
+	for _, n := range []int{1025, 2049} {
+		for _, f := range bigFamilies(n) {
+			if !c.Mine() {
+				continue
+			}
+			run(f.adj, f.root)
+		}
+	}
+	r.Bound("big_graphs", "7 structured families on 1025 and 2049 nodes (ids cross the 1024/2048 growth boundaries)")
 	r.Bound("families", "irreducible ladders, complete graphs, circulant multigraphs, unreachable feeders, paths/cycles/trees/DAG layers up to 200 nodes")
 }
 
